@@ -74,6 +74,7 @@ def run(ctx):
         from ..rules import extra as _x5l
         _x5l.check_no_forward_seek(ck, prog, config, 'C05-l', ('zck_write_chunk_cb', 'zck_write_zck_header_cb'), 'download path')
         _x5l.check_header_name_case(ck, prog, config, 'C05-m')
+        _x5l.check_count_compare(ck, prog, config, 'C05-n')
         # ---- k  the carried-over part header: the recorded length never exceeds what was allocated for it
         from ..rules import sizepair
         sizepair.check_size_pairs(ck, prog, config, 'C05-k', min_exits=1, units=('dl/multipart.c', 'dl/dl.c'))
